@@ -233,6 +233,7 @@ class Contract:
         self.raises = d.get('raises', {})            # exc class -> condition fn (must hold when raised)
         self.raises_iff = d.get('raises_iff', {})    # exc class -> condition fn (raised exactly when)
         self.pins = {k: _fn(v) for k, v in d.get('pins', {}).items()}
+        self.raise_pins = d.get('raise_pins', {})    # finding id -> (exception class, condition fn): a pinned, listed deviation that raises
         self.init = _fn(d.get('init'))               # symbolic only: establishes derived fields of record parameters (representation invariant)
         self.init_after_prepare = d.get('init_after_prepare', False)   # native replay: run init on the real objects (history prefix)
         self.call = _fn(d.get('call'))               # params -> dict of keyword arguments of the target
